@@ -26,6 +26,8 @@ def main():
     name = os.path.basename(mdir)
     if "/mut2-" in mdir:
         name = "r2" + name      # second round of independently seeded changes
+    if "/mut3-" in mdir:
+        name = "r3" + name      # third round
     meta = json.load(open(os.path.join(mdir, "meta.json")))
     readme = open(os.path.join(mdir, "demo", "README.txt")).read() if os.path.exists(os.path.join(mdir, "demo", "README.txt")) else ""
     orig_repo = os.path.dirname(os.path.dirname(mdir)) + "/repo"
@@ -92,7 +94,7 @@ def main():
         res["suite_with_patch"] = "pass" if not bad else "FAIL: " + " | ".join(bad[:6])
         res["ran"].append("go build ./... && tools/core_suite.sh <worktree>   (patched; root-module test packages with the testify stand-in)")
         # our checks
-        vm = os.environ.get("VMUT", "/tmp/vmut")
+        vm = os.environ.get("VMUT", "/tmp/vmut-%s-%s" % (pid, name))
         if not os.path.isdir(vm):
             sh("cp -r /verif %s" % vm)
         else:
@@ -115,6 +117,7 @@ def main():
         return res
     finally:
         sh("git -C /repo worktree remove --force %s" % w)
+        sh("rm -rf /tmp/vmut-%s-%s" % (pid, name))
         ok = res.get("builds") and res.get("demo_at_head") == "pass" and str(res.get("demo_with_patch", "")).startswith("fail") and res.get("suite_with_patch") == "pass"
         res["confirmed"] = bool(ok)
         out_dir = "/verif/seeded/%s-%s" % (pid, name)
